@@ -330,7 +330,12 @@ def run(ctx):
                 continue
             ctx.count("round_trips")
             if "dump_full" not in r:
-                ctx.violation("dump_failed", f"{cls.__name__} ({backend}): {r.get('dump_full_err')}", case)
+                shadow = sorted(set(c["wire"]) & modelgen.API_NAMES)
+                if shadow and backend.startswith("fallback") and "not callable" in str(r.get("dump_full_err")):
+                    ctx.violation("api_named_extra_member_shadows_method_under_fallback",
+                                  f"{cls.__name__} ({backend}): extra member(s) {shadow}: {r.get('dump_full_err')}", case)
+                else:
+                    ctx.violation("dump_failed", f"{cls.__name__} ({backend}): {r.get('dump_full_err')}", case)
                 continue
             full = r["dump_full"]
             d = lossless_diff(c["wire"], full)
